@@ -285,6 +285,12 @@ class Ctx:
         self.obligations.append({"name": name, "kind": kind, "ok": bool(ok), "detail": detail[-2000:]})
         return ok
 
+    def crumb(self, obj):
+        """Record the case that is about to be run on the implementation; if the implementation crashes
+        the interpreter, main.py reports this case as the replay."""
+        with open(os.path.join(self.gen, "breadcrumb.json"), "w") as fh:
+            json.dump(obj, fh, default=str)
+
     def log(self, *a):
         print("[%s %6.1fs]" % (self.pid, time.time() - self.t0), *a, flush=True)
 
